@@ -251,6 +251,16 @@ func c19RunCase(cs *c19Case, send func(c19Msg)) {
 					defer func() { _ = recover() }()
 					_, _, _ = w.ListEntries(ctx, from.String(), 1000)
 				}()
+				// a listing returns at the first error while its other reads are still being issued:
+				// the storm lasts until they have all been attempted
+				for last, quiet := -1, 0; quiet < 4; {
+					time.Sleep(10 * time.Millisecond)
+					if g := fs.Gets(); g == last {
+						quiet++
+					} else {
+						last, quiet = g, 0
+					}
+				}
 			}
 			fs.SetFailAll(false)
 		case "list":
